@@ -166,7 +166,7 @@ Theorem c11_resumed_history_independent : forall h h' conn conn' c p,
 Proof. exact auth_ip_independent. Qed.
 Print Assumptions c11_resumed_history_independent.
 
-(* over a whole sequence of requests on one server (each seeing all earlier ones): an admitted request
+(* over a whole sequence of requests on one server (each seeing all earlier ones): a request that is let in
    presenting a minted certificate comes from inside that certificate's blocks on a verified connection *)
 Theorem c11_sequence_sound : forall rs h r cn blocks,
   forallb wf_block blocks = true ->
@@ -180,7 +180,7 @@ Proof. exact run_history_independent. Qed.
 Print Assumptions c11_sequence_history_independent.
 
 (* sharpness: a server that remembers "this certificate was found good" and consults that on resumed
-   sessions is not this function - after one use from inside (full handshake) the certificate is admitted
+   sessions is not this function - after one use from inside (full handshake) the certificate is let in
    from outside on a resumed session; without the earlier use it is not *)
 Theorem c11_resume_cache_refuted :
   exists cn blocks inside outside full resumed,
